@@ -8,3 +8,4 @@ import RexModel.Props.C01
 #print axioms Rex.C01.padding_never_selected
 #print axioms Rex.C01.C01_windows_agree
 #print axioms Rex.C01.C01_window_payloads_are_sender_outputs
+#print axioms Rex.C01.C01_compiled_executor_refines_dataflow
